@@ -126,6 +126,20 @@ def tree_depth(t):
     return 1 + max([tree_depth(c) for c in t[3]] + [0])
 
 
+def attributed_empty_then_escaped(t):
+    """preorder: an element with attributes and no children, later a text node containing one of & < > ' \" """
+    seen = [False]
+
+    def walk(x):
+        if x[0] == "T":
+            return seen[0] and any(c in b"&<>'\"" for c in x[1])
+        if x[2] and not x[3]:
+            seen[0] = True
+            return False
+        return any([walk(c) for c in x[3]])   # list: visit every child so that `seen` follows document order
+    return walk(t)
+
+
 def tokens(t):
     if t[0] == "T":
         return ["T", hexs(t[1])]
@@ -379,17 +393,39 @@ def gen(rng, tier):
     # 7. DOM trees: encode and decode(encode)  (returned first: a broken round trip is then among the first failures judged)
     other = cases
     cases = []
+    fmt1 = []
     for i in range(500 if quick else 25000):
         depth = rng.choice([0, 1, 2, 3, 4, 5, 8, 11])
         sole = rng.random() < 0.5
         t = rtree(rng, depth, sole, plain=(rng.random() < 0.5), fan=3 if depth > 4 else 4)
         tk = " ".join(tokens(t))
-        cases.append(["enc 0 " + tk, "enc 1 " + tk, "rt 0 " + tk, "rt 1 " + tk])
+        # one case per output format: a failure of the compact round trip is never shrunk away in favour of the indented one
+        cases.append(["rt 0 " + tk, "enc 0 " + tk])
+        fmt1.append(["rt 1 " + tk, "enc 1 " + tk])
     for i in range(60 if quick else 1500):
         sole = rng.random() < 0.5
         t = rchain(rng, rng.choice([12, 12, 11, 10, 9, 7]), sole)
         tk = " ".join(tokens(t))
-        cases.append(["enc 0 " + tk, "enc 1 " + tk, "rt 0 " + tk, "rt 1 " + tk])
+        cases.append(["rt 0 " + tk, "enc 0 " + tk])
+        fmt1.append(["rt 1 " + tk, "enc 1 " + tk])
+    # directed: an attributed element without children (`<e k="v"/>`, closed through WAIT_ATT '/' SLASH) followed by text that the
+    # encoder escapes, as sibling text, as a later sibling's text and as the text of a following deeper element
+    for i in range(60 if quick else 1500):
+        e = ("E", rname(rng), rattrs(rng) or [(rname(rng), rtext(rng, 4))], [])
+        txt = bytes(rng.choice(b"&<>\"'")for _ in range(rng.randrange(1, 3))) + rtext(rng, 4)
+        shape = rng.randrange(4)
+        if shape == 0:
+            kids = [e, ("T", txt)]
+        elif shape == 1:
+            kids = [e, ("E", rname(rng), [], [("T", txt)])]
+        elif shape == 2:
+            kids = [("E", rname(rng), [], [e]), ("E", rname(rng), [], [("E", rname(rng), [], [("T", txt)])])]
+        else:
+            kids = [e, ("E", rname(rng), [], []), ("E", rname(rng), [(rname(rng), txt)], [("T", txt)])]
+        t = ("E", rname(rng), rattrs(rng) if rng.random() < 0.5 else [], kids)
+        tk = " ".join(tokens(t))
+        cases.append(["rt 0 " + tk, "enc 0 " + tk])
+        fmt1.append(["rt 1 " + tk, "enc 1 " + tk])
     # names outside the accepted classes, empty tags, a text node as root (no reference opinion; model vs code only)
     for i in range(60 if quick else 1500):
         t = rtree(rng, 2, False)
@@ -403,7 +439,7 @@ def gen(rng, tier):
         tk = " ".join(tokens(t))
         cases.append(["enc 0 " + tk, "rt 0 " + tk, "rt 1 " + tk])
     cases.append(["enc 0 T 6162", "rt 0 T 6162", "enc 1 T 26", "rt 1 T 26", "enc 0 E - 0 0", "rt 0 E - 0 0"])
-    cases = cases + other
+    cases = cases + fmt1 + other
     # 8. deeply nested documents built inside the harness / driver (kind 0: closed, 1: closed then a mismatched end tag so that
     #    the tree is destroyed inside decode, 2: unclosed)
     for n in ([0, 1, 2, 12, 13, 1000, 300000] if quick else [0, 1, 2, 12, 13, 1000, 50000, 300000, 1000000]):
@@ -442,6 +478,9 @@ def distribution(cases):
                     continue
                 k = str(tree_depth(tr))
                 d["tree_depth_hist"][k] = d["tree_depth_hist"].get(k, 0) + 1
+                if attributed_empty_then_escaped(tr):
+                    d["tree_text_features"]["attributed_empty_element_then_escaped_text"] = \
+                        d["tree_text_features"].get("attributed_empty_element_then_escaped_text", 0) + 1
                 blob = b"".join(unhex(x) for x in t[2:] if re.fullmatch(r"[0-9a-f]{2,}", x) and len(x) % 2 == 0)
                 for f, pat in (("amp", b"&"), ("lt", b"<"), ("gt", b">"), ("dquote", b"\""), ("squote", b"'")):
                     if pat in blob:
@@ -628,7 +667,7 @@ def oracle(case, impl, model, crash):
             return True, "a child's parent() is not the element that contains it (flag '!' in the dump of: %s)" % l[:80]
     for l, o in zip(case, outs):
         if l.startswith("rt "):
-            exp = reference(l)
+            exp = reference(l)   # python normalisation of the INPUT tree; None outside the clause's hypotheses
             if exp is not None and o != exp:
                 return True, ("decode(encode(t)) is not t up to merging adjacent text and dropping blank text "
                               "(expected %s, got %s)" % (exp[:120], o[:120]))
@@ -656,6 +695,12 @@ def simplify_line(line):
         cands = sorted(subtrees(tr), key=lambda x: len(tokens(x)))[:40]
         cands += [("E", tr[1], [], tr[3]), ("E", b"a", tr[2], tr[3])]
         cands += [("E", tr[1], tr[2], tr[3][:i] + tr[3][i + 1:]) for i in range(len(tr[3]))][:20]
+        if t[1] == "1":
+            # the compact round trip is promised for every tree: if a (smaller) tree already breaks it, report that one
+            for c in cands + [tr]:
+                yield "%s 0 %s" % (t[0], " ".join(tokens(c)))
+            sole = text_only_sole(tr)
+            cands = [c for c in cands if text_only_sole(c) or not sole]   # stay inside the indented clause's side condition
         for c in cands:
             yield "%s %s %s" % (t[0], t[1], " ".join(tokens(c)))
         return
